@@ -21,6 +21,10 @@ import time
 from . import report
 
 
+def report_viol(kind, sig, detail):
+    return {"kind": kind, "sig": sig, "detail": detail}
+
+
 def _digest(obj):
     return hashlib.sha1(repr(obj).encode()).digest()[:12]
 
@@ -37,8 +41,16 @@ def _expand(arg):
             try:
                 for o in seq:
                     spec.apply(st, o, False)
-                vs = spec.apply(st, op, True)
-                d = _digest(spec.dump(st))
+                try:
+                    vs = spec.apply(st, op, True)
+                    d = _digest(spec.dump(st))
+                except Exception as e:      # the component (or a reader used by the oracle) blew up: a finding, not a crash
+                    import traceback
+                    tb = traceback.extract_tb(e.__traceback__)
+                    where = next((f for f in reversed(tb) if "/cloudsync/" in f.filename.replace("\\", "/")), tb[-1])
+                    vs = [report_viol("raised", "%s@%s" % (type(e).__name__, where.name),
+                                      {"error": repr(e)[:200], "where": "%s:%s" % (where.filename.rsplit("/", 1)[-1], where.name)})]
+                    d = _digest(("raised", type(e).__name__, where.name))
             finally:
                 spec.close(st)
             ntrans += 1
